@@ -143,6 +143,7 @@ static int as_escaped_char(int c, int chr)
         case '\f': return 'f';
         case '\r': return 'r';
         case '\\': return '\\';
+        case '\0': return chr ? '0' : -1; // (a string ends at its first NUL)
         default:
             if(chr && c == '\'')
                 return '\'';
@@ -1187,7 +1188,9 @@ const char* rtosc_skip_next_printed_arg(const char* src, int* skipped,
                 else
                 {
                     ++src; // type 2 or 3
-                    esc = get_escaped_char(src[1], 1);
+                    // '\0' is the NUL character (which get_escaped_char
+                    // cannot tell from "no such escape")
+                    esc = (src[1] == '0') ? 1 : get_escaped_char(src[1], 1);
                 }
             }
             // if the last char was no single quote,
